@@ -1,0 +1,18 @@
+//go:build verif
+
+package http
+
+// Contracts for the gvc verifier (/verif). Comment-only; never compiled into
+// a normal build.
+
+// handshakeSmart (C34): the buffered reader over the response body holds a
+// packet of the maximal size, so PeekLine and DiscoverVersion can look at the
+// server's first lines whatever their length.
+//gvc:func handshakeSmart
+//gvc:  props C34
+//gvc:  theory int
+//gvc:  opt coarse
+//gvc:  opt frame args
+//gvc:  sink PeekLine requires room: arg0.#bufsize >= 65520
+//gvc:  sink DiscoverVersion requires room: arg0.#bufsize >= 65520
+//gvc:end
